@@ -314,6 +314,8 @@ class Calls(DataModels):
                 return self.parse_at(I, obj, args[0], ln, exc='ConstructError')
             if name == 'parse':
                 return self.parse_bytes(I, obj, args[0], ln)
+            if name == 'build_stream':
+                return self.build_at(I, obj, args[0], args[1], ln)
             raise Unsupported('struct.%s' % name)
         if isinstance(obj, (SBytes, bytes)):
             return self.bytes_method(I, obj, name, args, kw, node)
@@ -854,6 +856,35 @@ class Calls(DataModels):
         else:
             stream.pos = z3.Function('end!' + lay.name, ArrS, IntS, IntS)(stream.arr, pz)
         return val
+
+    def build_at(self, I, struct, value, stream, ln):
+        """<fixed-width unsigned field>.build_stream(value, stream): writes the field's bytes at the stream position.
+        Assumed contract of construct's builder (listed in the evidence): a value outside the field's range is rejected;
+        otherwise exactly `size` bytes are written at the position, every other byte of the stream keeps its value, the
+        stream grows to hold them, and parsing the written field gives the value back (round trip of the K2-checked
+        layout)"""
+        lay = LAYOUTS.get(struct.name)
+        if lay is None or getattr(lay, 'custom', None) or isinstance(lay.fields, dict) or not isinstance(stream, SStream):
+            raise Unsupported('build_stream of %s' % struct.name)
+        size = lay.size(struct.owner) if callable(lay.size) else lay.size
+        if not isinstance(size, int):
+            sz = z3.simplify(to_int(size))
+            if not z3.is_int_value(sz):
+                raise Unsupported('build_stream of a field without a fixed size')
+            size = sz.as_long()
+        v, p = to_int(value), to_int(stream.pos)
+        if not I.ctx.branch(z3.And(v >= 0, v < 2 ** (8 * size))):
+            raise PyExc('FieldError', ln, 'value does not fit the field')
+        arr2 = I.ctx.const('%s.B!w' % stream.name, ArrS)
+        j = z3.Int('j!w')
+        I.ctx.assume(z3.ForAll([j], z3.Implies(z3.Or(j < p, j >= p + size), z3.Select(arr2, j) == z3.Select(stream.arr, j))))
+        I.ctx.assume(z3.Function(lay.name, ArrS, IntS, IntS)(arr2, p) == v)
+        stream.arr = arr2
+        stream.length = z3.If(to_int(stream.length) >= p + size, to_int(stream.length), p + size)
+        stream.pos = z3.simplify(p + size)
+        I.assumptions.add('construct builder of a fixed-width unsigned field: writes exactly the field at the stream position, leaves every '
+                          'other byte, and the written field parses back to the value (assumed; the parse direction is the K2 obligation)')
+        return None
 
     def parse_form(self, I, fp, stream, ln, exc):
         """abstract operand parser of an attribute form (see vals.FormParser)"""
